@@ -967,9 +967,12 @@ def check_value_equal(chk: core.Check, drv: core.Driver, n_spaces: int) -> None:
     nan1, nan2 = float("nan"), float("nan")
     pool = [None, True, False, 0, 1, 2, -3, 0.0, 1.0, 0.5, -2.25, float("inf"), float("-inf"), nan1, nan2, "1", "a", "", "nan"]
     ids: dict[int, int] = {}
-    for a in pool:
+    veq = getattr(GridSampler, "_grid_value_equal", None)
+    if veq is None:
+        chk.broke("correspondence", {"what": "GridSampler._grid_value_equal is gone: the NaN-aware value comparison of the model has no counterpart to run against"})
+    for a in (pool if veq is not None else []):
         for b in pool:
-            real = bool(GridSampler._grid_value_equal(a, b))
+            real = bool(veq(a, b))
             m = drv.ask({"op": "gen_veq", "a": gval(a, ids), "b": gval(b, ids)})
             chk.count("gen:value-equal")
             chk.evaluations += 1
